@@ -44,7 +44,14 @@ class ModulePrinter(ExpressionPrinter):
         assert isinstance(node, ast.Exec)
 
         self.printer.keyword('exec')
-        self._expression(node.body)
+
+        if 0 < self.precedence(node.body) <= self.precedences['In']:
+            # exec_stmt: 'exec' expr ['in' test [',' test]] - a body that is not an expr needs parentheses
+            self.printer.delimiter('(')
+            self._expression(node.body)
+            self.printer.delimiter(')')
+        else:
+            self._expression(node.body)
 
         if node.globals:
             self.printer.keyword('in')
